@@ -19,9 +19,9 @@ use std::collections::{BTreeMap, BTreeSet};
 use std::sync::Arc;
 use std::time::Duration;
 
-pub const KINDS: [&str; 21] = [
+pub const KINDS: [&str; 22] = [
     "PublishBig", "CreateTopic", "CreateSub", "CreateSubPush", "Publish1", "Publish3", "PullRI", "PullBlockEmpty", "PullBlockReady", "Ack", "Nack", "Modify30",
-    "DeleteSub", "DeleteTopic", "GetTopic", "GetSub", "ListTopics", "ListSubs", "ListTopicSubs", "StreamOpen", "StreamOpenEmpty",
+    "DeleteSub", "DeleteTopic", "GetTopic", "GetSub", "ListTopics", "ListSubs", "ListTopicSubs", "StreamOpen", "StreamOpenEmpty", "Publish3WhileDeleting",
 ];
 const K_MAX: u64 = 14;
 const SETTINGS: [&str; 4] = ["idle", "topic-full", "sub-full", "both-full"];
@@ -129,7 +129,7 @@ async fn episode(p: &EpParams, case: u64, pass: u64) -> EpReport {
     // Which actors does R address?
     let (r_topic, r_sub): (&str, &str) = match kind {
         "CreateTopic" | "ListTopics" | "ListSubs" => (&t1, &s1),
-        "CreateSub" | "CreateSubPush" | "Publish3" | "PublishBig" | "DeleteTopic" | "GetTopic" | "ListTopicSubs" => (&t1, &s2),
+        "CreateSub" | "CreateSubPush" | "Publish3" | "Publish3WhileDeleting" | "PublishBig" | "DeleteTopic" | "GetTopic" | "ListTopicSubs" => (&t1, &s2),
         "Publish1" => (&t2, &s4),
         "PullRI" | "PullBlockReady" | "StreamOpen" => (&t1, &s2),
         "PullBlockEmpty" | "StreamOpenEmpty" => (&t2, &s4),
@@ -178,7 +178,7 @@ async fn episode(p: &EpParams, case: u64, pass: u64) -> EpReport {
             "CreateSub" => Box::pin(async move { c1.create_sub(&s9, &t1, 10).await.ok(); None }),
             "CreateSubPush" => Box::pin(async move { c1.create_sub_full(&s9, &t1, 10, Some("http://127.0.0.1:1/push"), Default::default()).await.ok(); None }),
             "Publish1" => Box::pin(async move { c1.publish(&t2, &two).await.ok(); None }),
-            "Publish3" => Box::pin(async move { c1.publish(&t1, &two).await.ok(); None }),
+            "Publish3" | "Publish3WhileDeleting" => Box::pin(async move { c1.publish(&t1, &two).await.ok(); None }),
             "PublishBig" => Box::pin(async move {
                 // a request far larger than any internal batching threshold: still all-or-nothing
                 let big: Vec<Msg> = (0..2500).map(|i| Msg::tagged(&format!("big{}", i))).collect();
@@ -202,6 +202,14 @@ async fn episode(p: &EpParams, case: u64, pass: u64) -> EpReport {
             _ => Box::pin(async move { c1.open_stream(&s4, 2).await.ok() }),
         }
     };
+    // Publish3WhileDeleting: another client deletes a sibling subscription of the topic at the same
+    // moment (that request is not abandoned); the abandoned publish is still all-or-nothing for the
+    // subscriptions that remain
+    let mut other_delete = None;
+    if kind == "Publish3WhileDeleting" {
+        let (c2, s3b) = (Cx::new(&w, 2), s3.clone());
+        other_delete = Some(tokio::spawn(async move { c2.delete_sub(&s3b).await }));
+    }
     let polls_seen = Arc::new(std::sync::atomic::AtomicUsize::new(0));
     let ps = Arc::clone(&polls_seen);
     let r_task = tokio::spawn(async move {
@@ -260,6 +268,19 @@ async fn episode(p: &EpParams, case: u64, pass: u64) -> EpReport {
         }
     };
 
+    let mut pre = pre;
+    if let Some(h) = other_delete {
+        match tokio::time::timeout(Duration::from_secs(3600), h).await {
+            Ok(Ok(Ok(()))) => {
+                pre.subs.remove(&s3);
+                if let Some(x) = pre.tsubs.get_mut(&t1) {
+                    x.remove(&s3);
+                }
+                pre.stats.remove(&s3);
+            }
+            _ => rep.viol("C16", format!("C16:wedge:{}@{}", kind, setting), "the DeleteSubscription of the sibling subscription did not return OK".to_string()),
+        }
+    }
     // --- invariants that hold whatever R did ---------------------------------------------------
     for (s, t) in &post.subs {
         if post.topics.contains(t) {
@@ -303,6 +324,11 @@ async fn episode(p: &EpParams, case: u64, pass: u64) -> EpReport {
         }
         "Publish3" => {
             for s in [&s1, &s2, &s3] {
+                applied.stats.get_mut(s).unwrap().1 += 2;
+            }
+        }
+        "Publish3WhileDeleting" => {
+            for s in [&s1, &s2] {
                 applied.stats.get_mut(s).unwrap().1 += 2;
             }
         }
